@@ -266,6 +266,8 @@ class Gen:
     # ------------------------------------------------------------------ instructions
     def instr_op(self, r: Region):
         kinds = ["custom", "custom", "noop", "mktuple", "tag"]
+        if self.flags.get("reuse_partial"):
+            kinds += ["noop", "noop", "mktuple", "mktuple", "mktuple"]
         av = self.avail(r)
         tys = [tkey(it[0]["ty"]) for it in av]
         if tkey(B) in tys:
@@ -360,7 +362,19 @@ class Gen:
             return False
         ev = len(self.events)
         args = [self.use(r, it, ev) for it in items]
-        self.emit({"e": "op", "r": r.id, "op": op, "args": args, "mode": mode, "partial": partial, "meta": meta})
+        if self.flags.get("reuse_partial") and op["k"] in ("Noop", "MakeTuple", "UnpackTuple", "CallIndirect"):
+            partial = True
+        evd = {"e": "op", "r": r.id, "op": op, "args": args, "mode": mode, "partial": partial, "meta": meta}
+        # the very same operation object used for an earlier node: equal complete ops, or (for the ops that
+        # are completed from their input wires) an object of the same class whatever it was completed to
+        PARTIAL_KINDS = ("Noop", "MakeTuple", "UnpackTuple", "CallIndirect")
+        earlier = [j for j, e2 in enumerate(self.events) if e2.get("e") == "op" and "int_arg" not in e2 and e2.get("same_as") is None and e2["op"]["k"] == op["k"]
+                   and (e2["op"] == op or (self.flags.get("reuse_partial") and op["k"] in PARTIAL_KINDS and partial and e2.get("partial")))]
+        if earlier and (self.coin(1, 3) or (self.flags.get("reuse_partial") and self.coin(1, 2))):
+            j = self.pick(earlier)
+            evd["same_as"] = j
+            self.classes.add("op-object-reused" if self.events[j]["op"] == op else "partial-op-object-reused-with-other-types")
+        self.emit(evd)
         self.add_node(r, ev, outs)
         if meta:
             self.classes.add("metadata")
@@ -1029,8 +1043,8 @@ META = st.one_of(st.none(), st.none(), st.none(), st.dictionaries(st.sampled_fro
 
 
 @st.composite
-def programs(draw, size=12, max_depth=2, roots=("module", "dfg", "function", "cfg", "cond", "loop"), detached=True, call_bias=False):
-    g = Gen(draw, draw(st.integers(max(2, size // 3), size)), {"max_depth": max_depth, "detached": detached, "call_bias": call_bias})
+def programs(draw, size=12, max_depth=2, roots=("module", "dfg", "function", "cfg", "cond", "loop"), detached=True, call_bias=False, reuse_partial=False):
+    g = Gen(draw, draw(st.integers(max(2, size // 3), size)), {"max_depth": max_depth, "detached": detached, "call_bias": call_bias, "reuse_partial": reuse_partial})
     kind = draw(st.sampled_from(list(roots)))
     if kind == "module":
         root = {"kind": "module"}
@@ -1075,6 +1089,12 @@ def consistent(prog) -> bool:
     for ev in evs:
         if not isinstance(ev, dict) or "e" not in ev:
             return False
+        if ev.get("same_as") is not None:
+            j = ev["same_as"]
+            if not isinstance(j, int) or not (0 <= j < len(evs)) or evs[j].get("e") != "op" or evs[j].get("op", {}).get("k") != ev.get("op", {}).get("k"):
+                return False
+            if evs[j]["op"] != ev["op"] and "partial-op-object-reused-with-other-types" not in prog.get("classes", []):
+                return False
         if ev["e"] in ("call", "load_func"):
             f = ev.get("f")
             if not isinstance(f, int) or not (0 <= f < len(evs)):
